@@ -154,6 +154,12 @@ def run_dedupe(exe, data, backing, tmp, args=()):
     """run the real binary with `data` on stdin supplied through the given backing"""
     if backing == "pipe":
         return run_tool([exe] + list(args), stdin=data, timeout=120)
+    if "-staged" in backing:
+        # a compressed stream on a pipe whose first read delivers only 1 or 2 bytes of the magic, then a pause
+        comp = {"gz": gzip.compress, "bz2": bz2.compress, "xz": lzma.compress}[backing.split("-")[0]]
+        raw = comp(data)
+        k = int(backing[-1])
+        return run_staged([exe] + list(args), [raw[:k], raw[k:]], pause=0.4, timeout=60)
     if backing.endswith("-members"):
         # several concatenated compressed members, with EMPTY members at the start, in the middle and at the end
         comp = {"gz": gzip.compress, "bz2": bz2.compress, "xz": lzma.compress}[backing.split("-")[0]]
@@ -220,6 +226,19 @@ def main(argv):
             spec, delim, data = gen_fielded(rng, ragged)
             args = ["-f", spec, "-d", delim.decode()] if delim != b"\t" or rng.random() < 0.5 else ["-f", spec]
             cases.append(("fields%s -f %s" % ("-ragged" if ragged else "", spec), data, BACKINGS[i % 5], args, cut_key(spec, delim), (spec, delim.hex())))
+        # slow producer: the compressed magic arrives in two reads
+        for b in ("gz-staged1", "gz-staged2", "bz2-staged1", "bz2-staged2", "xz-staged1", "xz-staged2"):
+            cases.append(("boundary/staged-pipe", b"a\nb\na\nc\n" * 3, b, [], None, ("-", "09")))
+        # short keys of different length that differ only by trailing NUL padding and one byte with
+        # len1 ^ len2 == byte1 ^ byte2 (distinct lines: both kept; a hash that mixes the length weakly merges them)
+        shorts = []
+        for n1 in range(1, 7):
+            for n2 in range(n1 + 1, 8):
+                base = bytes(rng.choice(b"abcdefgh") for _ in range(n1))
+                shorts.append(base)
+                shorts.append(bytes([base[0] ^ n1 ^ n2]) + base[1:] + b"\x00" * (n2 - n1))
+        cases.append(("boundary/short-NUL-padded-keys", b"".join(x + b"\n" for x in shorts), "pipe", [], None, ("-", "09")))
+        cases.append(("boundary/short-NUL-padded-keys", b"".join(b"f\t" + x + b"\tg\n" for x in shorts), "file", ["-f", "2"], cut_key("2", b"\t"), ("2", "09")))
         # compressed inputs made of several members, empty members in between (gz / bz2 / xz)
         for i in range(max(9, reps // 4)):
             kind = kinds[i % 4]
